@@ -105,11 +105,13 @@ pub struct RuleSpec {
     pub rhs: &'static str,
     /// side condition: slot `.0` must not be free in the binding of variable `.1`
     pub not_free: Option<(&'static str, &'static str)>,
+    /// a second side condition of the same kind (both must hold; built with the library's `and` / `not` combinators)
+    pub not_free2: Option<(&'static str, &'static str)>,
 }
 
 pub fn rule_pool() -> Vec<RuleSpec> {
-    let r = |name, lhs, rhs| RuleSpec { name, lhs, rhs, not_free: None };
-    let c = |name, lhs, rhs, s, v| RuleSpec { name, lhs, rhs, not_free: Some((s, v)) };
+    let r = |name, lhs, rhs| RuleSpec { name, lhs, rhs, not_free: None, not_free2: None };
+    let c = |name, lhs, rhs, s, v| RuleSpec { name, lhs, rhs, not_free: Some((s, v)), not_free2: None };
     vec![
         r("add-comm", "(add ?a ?b)", "(add ?b ?a)"),
         r("add-assoc", "(add (add ?a ?b) ?c)", "(add ?a (add ?b ?c))"),
@@ -131,6 +133,8 @@ pub fn rule_pool() -> Vec<RuleSpec> {
         r("let-add", "(let $x (add ?a ?b) ?e)", "(add (let $x ?a ?e) (let $x ?b ?e))"),
         r("let-var", "(let $x (var $x) ?e)", "?e"),
         r("let-under-sum", "(let $x (sum $y ?b) ?e)", "(sum $y (let $x ?b ?e))"),
+        c("sum-drop-const-summand", "(sum $x (add ?a ?b))", "(sum $x ?b)", "x", "a"),
+        RuleSpec { name: "sum-both-const", lhs: "(sum $x (add ?a ?c))", rhs: "0", not_free: Some(("x", "a")), not_free2: Some(("x", "c")) },
     ]
 }
 
@@ -138,7 +142,11 @@ pub fn mk_rule<N: Analysis<Ar> + 'static>(r: &RuleSpec) -> Rewrite<Ar, N> {
     match r.not_free {
         None => Rewrite::new(r.name, r.lhs, r.rhs),
         // slot_free_in(s, v) is true iff the binding of ?v does NOT mention slot s
-        Some((s, v)) => Rewrite::new_if(r.name, r.lhs, r.rhs, slot_free_in(s, v)),
+        Some((s, v)) => match r.not_free2 {
+            None => Rewrite::new_if(r.name, r.lhs, r.rhs, slot_free_in(s, v)),
+            // exercises the `and` and `not` combinators: a && b  ==  not(or(not a, not b))
+            Some((s2, v2)) => Rewrite::new_if(r.name, r.lhs, r.rhs, and(slot_free_in(s, v), not(or(not(slot_free_in(s2, v2)), not(slot_free_in(s2, v2)))))),
+        },
     }
 }
 
@@ -500,7 +508,8 @@ pub fn self_test_rules() -> Result<u64, String> {
                         ok = false;
                     }
                 }
-                if let Some((s, cv)) = r.not_free {
+                for cond in [r.not_free, r.not_free2].into_iter().flatten() {
+                    let (s, cv) = cond;
                     if cv == v && fv.contains(s) {
                         ok = false;
                     }
